@@ -387,8 +387,10 @@ class Item:
 class Raw:
   """hand-written Verus text (prelude, spec functions, lemmas) -- not extracted code"""
 
-  def __init__(self, path=None, text=None, label=None):
+  def __init__(self, path=None, text=None, label=None, lemmas=False, props=None):
     self.path, self.text, self.label = path, text, label or path
+    self.lemmas = lemmas   # count every `proof fn` in this text as a named obligation of the unit
+    self.props = props
 
 
 class Gen:
@@ -403,6 +405,8 @@ class Gen:
     self.functions = []  # [{"fn":..., "file":..., "line":..., "clauses":[names]}]
     self.obligations = []  # named clauses [{"name","fn","kind"}]
     self.assumed_callees = []
+    self.lemmas = []
+    self.skipped_hints = []
 
   def tag(self, d):
     self.tags.append(d)
@@ -547,9 +551,16 @@ def extract_fn(gen, f, probe=False):
   for ordn in f.loops:
     if ordn >= len(sites):
       raise VxError("loop #%d of %s::%s not found (has %d loops): anchor lost" % (ordn, f.file, f.name, len(sites)))
-  for ordn in sorted(f.loops.keys(), reverse=True):
+  ops = []  # (pos, end, text, origin, seq) ; applied in descending pos order
+  seqn = [0]
+
+  def add_op(pos, end, text, origin):
+    seqn[0] += 1
+    ops.append((pos, end, text, origin, seqn[0]))
+
+  for ordn in sorted(f.loops.keys()):
     spec = f.loops[ordn]
-    _, kw, brace = sites[ordn]
+    st, kw, brace = sites[ordn]
     ins = []
     if spec.get("invariant_except_break"):
       ins.append(("\n      invariant_except_break\n", gen.tag({"kind": "kw", "fn": qual})))
@@ -562,12 +573,9 @@ def extract_fn(gen, f, probe=False):
       ins += _clause_lines(gen, spec["ensures"], qual, "loop_ensures", "        ")
     if spec.get("decreases"):
       ins.append(("\n      decreases %s\n" % spec["decreases"], gen.tag({"kind": "kw", "fn": qual})))
-    p = brace
     for text, t in ins:
-      body.insert(p, text, t)
-      p += len(text)
+      add_op(brace, brace, text, t)
     if kw == "for" and (spec.get("ghost_iter") or spec.get("iter_sub")):
-      st = sites[ordn][0]
       hdr = body.s[st:brace]
       m = re.match(r"for\s+(.+?)\s+in\s+(.+?)(\s*)$", hdr, re.S)
       if not m:
@@ -581,26 +589,61 @@ def extract_fn(gen, f, probe=False):
         expr = new_e
       gi = spec.get("ghost_iter")
       newhdr = "for %s in %s%s%s" % (m.group(1), (gi + ": ") if gi else "", expr, m.group(3))
-      body.replace(st, brace, newhdr, body.o[st])
-  # ---- hints
+      add_op(st, brace, newhdr, body.o[st])
+  # ---- structural hints: @fn_start, @loop_start:N, @loop_end:N (robust against edits of statement text)
+  text_hints = []
   for h in f.hints:
     name, anchor, occ, side, text = h
-    idx = -1
+    if not anchor.startswith("@"):
+      text_hints.append(h)
+      continue
+    t = gen.tag({"kind": "hint", "fn": qual, "name": "%s.hint.%s" % (qual, name), "text": " ".join(text.split())})
+    if anchor == "@fn_start":
+      add_op(1, 1, "\n" + text.rstrip("\n") + "\n", t)
+      continue
+    m = re.match(r"@loop_(start|end):(\d+)$", anchor)
+    if not m:
+      raise VxError("bad structural anchor %r" % anchor)
+    n = int(m.group(2))
+    if n >= len(sites):
+      gen.skipped_hints.append({"fn": qual, "hint": name, "anchor": anchor, "why": "loop #%d not found" % n})
+      continue
+    brace = sites[n][2]
+    if m.group(1) == "start":
+      add_op(brace + 1, brace + 1, "\n" + text.rstrip("\n") + "\n", t)
+    else:
+      cl = match_close(mask, brace)
+      add_op(cl, cl, "\n" + text.rstrip("\n") + "\n", t)
+  for pos, end, text, origin, _ in sorted(ops, key=lambda o: (-o[0], -o[4])):
+    body.replace(pos, end, text, origin)
+  # ---- text-anchored hints ("re:<regex>" or literal). A lost anchor skips the hint (recorded); it never aborts.
+  for h in text_hints:
+    name, anchor, occ, side, text = h
+    idx, alen = -1, 0
     start = 0
+    lost = False
     for _ in range(occ + 1):
-      idx = body.s.find(anchor, start)
+      if anchor.startswith("re:"):
+        mm = re.compile(anchor[3:]).search(body.s, start)
+        idx, alen = (mm.start(), mm.end() - mm.start()) if mm else (-1, 0)
+      else:
+        idx, alen = body.s.find(anchor, start), len(anchor)
       if idx < 0:
-        raise VxError("hint anchor %r (#%d) lost in %s::%s" % (anchor, occ, f.file, f.name))
+        lost = True
+        break
       start = idx + 1
+    if lost:
+      gen.skipped_hints.append({"fn": qual, "hint": name, "anchor": anchor, "why": "anchor text not found (occurrence %d)" % occ})
+      continue
     if side == "before":
       p = body.s.rfind("\n", 0, idx) + 1
     elif side == "after":
-      p = body.s.find("\n", idx)
+      p = body.s.find("\n", idx + max(alen - 1, 0))
       p = len(body.s) if p < 0 else p + 1
     elif side == "at":
       p = idx
     else:
-      p = idx + len(anchor)
+      p = idx + alen
     t = gen.tag({"kind": "hint", "fn": qual, "name": "%s.hint.%s" % (qual, name), "text": " ".join(text.split())})
     tail = "\n" if side in ("before", "after") else " "
     body.insert(p, text.rstrip("\n") + tail, t)
@@ -661,7 +704,14 @@ def generate(unit, probe=False):
     if isinstance(part, Raw):
       text = part.text if part.text is not None else open(os.path.join(os.path.dirname(os.path.abspath(__file__)), "..", part.path)).read()
       gen.emit_raw("// ---- hand-written (trusted/spec): %s" % part.label, "vx")
+      first = len(gen.lines)
       gen.emit_raw(text, part.label)
+      if part.lemmas:
+        for i in range(first, len(gen.lines)):
+          m = re.match(r"\s*(?:pub\s+)?(?:broadcast\s+)?proof\s+fn\s+([A-Za-z0-9_]+)", gen.lines[i])
+          if m:
+            nm = ("+".join(part.props) + ":" if part.props else "") + "lemma." + m.group(1)
+            gen.lemmas.append({"name": nm, "fn": m.group(1), "start": i + 1, "src": part.label})
     elif isinstance(part, Item):
       ot = extract_item(gen, part)
       if part.kind in ("struct", "enum") and part.keep_derive:
